@@ -956,6 +956,12 @@ func tryReplay(cfg *runConfig, o *Obligation, rec *replayRecord) (bool, string) 
 		return false, "replay test did not run: " + firstLines(out, 5)
 	}
 	panicked := strings.Contains(out, "GOVC-PANIC")
+	if o.Kind == "safe-nan" {
+		if strings.Contains(out, "fNaN") {
+			return true, "real code returns NaN on the model's input"
+		}
+		return false, "real code returned no NaN on the model's input"
+	}
 	if wantPanic {
 		if panicked {
 			return true, "real code panics on the model's input"
